@@ -33,6 +33,8 @@ func c05Scenarios() []SchedScenario {
 			Threads: [][]VOp{{txn(map[string][]VEnt{"A": {e("e1", "v1")}, "Z": {e("e2", "v1")}}), b("A", e("e1", "v2"))}, {b("A", e("e2", "v2")), {K: "rename", DS: "A", To: "A2"}}}},
 		{Name: "S11-txn-vs-delete-then-writer", Datasets: vDS, IDs: vIDs, MapPoints: true,
 			Threads: [][]VOp{{txn(map[string][]VEnt{"A": {e("e1", "v1")}, "B": {e("e2", "v1")}}), b("A", e("e1", "v2"))}, {{K: "delete", DS: "B"}}}},
+		{Name: "S12-rejected-batch-vs-writers-of-new-ids", Datasets: vDS, IDs: []string{"e1", "e2", "e3", "e4"},
+			Threads: [][]VOp{{{K: "badbatch", DS: "B", Ents: []VEnt{e("e4", "v1")}}, {K: "get", Ents: []VEnt{e("e4", "v1")}}}, {b("A", e("e1", "r23")), {K: "get", Ents: []VEnt{e("e1", "v1")}}}}},
 		{Name: "S9-three-writers", Datasets: vDS, IDs: vIDs,
 			Threads: [][]VOp{{b("A", e("e1", "v1"))}, {b("B", e("e1", "v2"))}, {b("A", e("e1", "dv1"))}}},
 	}
